@@ -313,7 +313,8 @@ def _result_spec(draw, name, nvar, exotic, tier):
     return dict(name=name, type=typ, choice_num=choice_num,
                 acc=draw(st.booleans()), create=draw(st.booleans()),
                 histories=hist,
-                tail=draw(st.sampled_from([None, None, None, "merge_empty"])))
+                tail=draw(st.sampled_from([None, None, None, "merge_empty",
+                                           "merge_other", "merge_other"])))
 
 
 
@@ -384,9 +385,11 @@ def _scalar_pair(draw):
         near = lambda d: dict(t="float", v=math.nextafter(    # noqa
             d["v"], math.inf))
     elif kind == "str":
-        g = st.text(alphabet="abcXYZ019", min_size=1, max_size=8).map(
+        g = st.text(alphabet="abcXYZ019\u03b1\u03b2\u00e9\u00fc",
+                    min_size=1, max_size=8).map(
             lambda v: dict(t="str", v=v))
-        near = lambda d: dict(t="str", v=d["v"] + "0")          # noqa
+        near = lambda d: dict(t="str", v=d["v"][:-1] + (        # noqa
+            "\u03b2" if d["v"][-1] == "\u03b1" else "\u03b1"))
     else:
         dt = draw(st.sampled_from(NP_COMMON + ("float16", "int16",
                                                "uint64")))
@@ -543,6 +546,18 @@ def _make_result(Result, spec, hist):
     if spec.get("tail") == "merge_empty":
         r.merge(Result(spec["name"], code, accumulate_values=acc,
                        choice_num=spec["choice_num"]))
+    if spec.get("tail") == "merge_other" and obs:
+        # what the runner builds on every repetition: a result that was
+        # merged with another NON-empty result (here: one holding the same
+        # observations again)
+        other = Result(spec["name"], code, accumulate_values=acc,
+                       choice_num=spec["choice_num"])
+        for v, t in obs:
+            if spec["type"] == "RATIO":
+                other.update(v, t)
+            else:
+                other.update(v)
+        r.merge(other)
     return r
 
 
@@ -1105,6 +1120,11 @@ def _check_results(case, ctx):
                                                                    want_fn),
                                 tags)
             ld = SimulationResults.load_from_file(fn)
+            if not ext and "." not in os.path.basename(fn[:-len(".pickle")]):
+                # a name given without extension is also LOADED without it
+                # (documented default: '.pickle' is assumed)
+                ld = SimulationResults.load_from_file(fn[:-len(".pickle")])
+                ctx.label("loaded_through_bare_name")
             if run.compare("pickle_roundtrip_file_" + label, _img_results(s),
                            _img_results(ld), True, tags):
                 _lib_eq("pickle_roundtrip_file_" + label, s, ld, tags)
